@@ -102,6 +102,17 @@ def run(ctx: Ctx) -> None:
     st = [s for s in l2.body if isinstance(s, ast.Assign) and isinstance(s.targets[0], ast.Subscript) and canon(s.targets[0].value) == f"{cvn}['cost_volume'].data"]
     oks = bool(st) and bool(mk) and canon(st[0].targets[0].slice) == f"({mk[0].targets[0].id}[0], {mk[0].targets[0].id}[1], {v2})" and (dotted(st[0].value) or "") in ("np.nan", "numpy.nan") and not guards_of(st[0], stop=l2)
     ctx.ob("C09.MASKING", MC, st[0] if st else l2, f"cv_masked: {src(st[0])[:110] if st else '?'}", oks, expected=f"cost_volume[rows, cols, {v2}] = np.nan", detail="out-of-interval costs become NaN on the plane that was tested")
+    # the volume is written by nothing else: any further store (e.g. blanking the pixels where disp_min >= disp_max) removes computable costs
+    extra = []
+    for s_ in walk_no_nested(cm):
+        tg = s_.targets[0] if isinstance(s_, ast.Assign) else (s_.target if isinstance(s_, ast.AugAssign) else None)
+        base = tg
+        while isinstance(base, ast.Subscript):
+            base = base.value
+        if tg is not None and tg is not base and canon(base) in (f"{cvn}['cost_volume'].data", f"{cvn}['cost_volume']", f"{cvn}['cost_volume'].values"):
+            if not any(a is l1 for a in _anc(s_)) and not (st and s_ is st[0]):
+                extra.append(s_)
+    ctx.ob("C09.MASKING", MC, extra[0] if extra else l2, f"cv_masked writes the volume only in the mask loop and in the interval-masking store{': `' + src(extra[0])[:110] + '`' if extra else ''}", not extra, expected="no other store into the cost volume", detail="a cost is NaN only when it is not computable or lies outside the pixel's interval [disp_min, disp_max] (bounds included, so a single-disparity interval keeps its candidate): a further blanking store breaks the slice relation between nested intervals")
     # the cropping of the grids keeps the top-left origin
     for s in walk_no_nested(cm):
         if isinstance(s, ast.Assign) and isinstance(s.targets[0], ast.Name) and s.targets[0].id in (dmn, dmx) and isinstance(s.value, ast.Subscript):
@@ -186,6 +197,7 @@ SPEC = PropSpec(
 )
 
 MUTANTS = [
+    {"id": "degenerate-interval-blanked", "file": MC, "old": "        mask_invalid_variable_disparity_range(cost_volume)\n\n        # Mask border pixels", "new": "        undefined = np.where(~(disp_min < disp_max))\n        cost_volume[\"cost_volume\"].data[undefined[0], undefined[1], :] = np.nan\n        mask_invalid_variable_disparity_range(cost_volume)\n\n        # Mask border pixels"},
     {"id": "bounds-read-by-position", "file": SM, "old": '            self.disp_min = left_img["disparity"].sel(band_disp="min").data\n            self.disp_max = left_img["disparity"].sel(band_disp="max").data\n', "new": '            self.disp_min, self.disp_max = left_img["disparity"].data\n'},
     {"id": "dsp-without-subpix", "file": MC, "old": "            dsp = int((disp - dmin) * self._subpix)", "new": "            dsp = int(disp - dmin)"},
     {"id": "arange-without-plus-one", "file": MC, "old": "disparity_range = np.arange(disparity_min, disparity_max + 1)", "new": "disparity_range = np.arange(disparity_min, disparity_max)"},
